@@ -1,60 +1,43 @@
 #!/usr/bin/env python3
 """C17/C18: regenerates the *order and placement* facts of the Cognitive Nexus transaction layer
-that the model `AndaVerif.Model.Tx` runs as its program:
+that the model `AndaVerif.Model.Tx` runs as its program.
+
+The scan keys on WHAT IS CALLED (method / field / constant names), on nesting and on first-occurrence
+order — never on the names of locals, on comments, formatting or a statement's exact spelling. Every
+function is scanned with the private helpers of its file textually inlined (`common.inlined_body`),
+so a block extracted into (or inlined from) a helper yields the same facts.
 
 * rs/anda_cognitive_nexus/src/tx.rs      `Transaction::commit`: the dry-run branch (discards its
-  shells and returns before anything else), then the order of governance propagation, reference
-  closure, key identity, the write loop, discard_unstaged_shells, journal, flush; the version rule
-  and the skip of unchanged rows inside the loop; `write`: put before record_version, pending ->
-  active; `abort` = discard_shells.
+  shells and returns before anything else); the order of governance propagation, reference closure,
+  key identity, the write loop over `mem::take(&mut self.staged)`, discard_unstaged_shells, journal,
+  flush; whether a failing pre-commit check discards the shells before the error is returned; where
+  `remove_versions` of a staged purge happens; the skip of unchanged rows, the version rule and the
+  status rule; `write`: put before record_version, pending -> active; `abort` = discard_shells.
 * rs/anda_cognitive_nexus/src/kml/mod.rs `execute`: begin -> plan -> (abort on a planning error)
-  -> commit; no clean-up on a commit error; `plan`: declare every handle before the passes.
+  -> commit; `plan`: declare every handle before the passes.
 * rs/anda_cognitive_nexus/src/kml/clauses.rs `plan_pass` table, `PLAN_PASSES`, which clause
-  variants `declare_handles` mints a shell for.
-* rs/anda_cognitive_nexus/src/nexus.rs   `Session::execute`: lock kind taken per `Command` arm.
-* rs/anda_cognitive_nexus/src/store/space.rs `begin_transaction`: `seq = space.seq + 1`, written
-  back before the context is returned; `journal` stores `cx.seq`.
+  variants `declare_handles` mints a shell for; ENSURE: store lookup, staged lookup, mint.
+* rs/anda_cognitive_nexus/src/nexus.rs   `Session::execute`: lock side taken per `Command` arm.
+* rs/anda_cognitive_nexus/src/store/space.rs `begin_transaction`, `journal`.
+* rs/anda_cognitive_nexus/src/store/history.rs `element_at`, `elements_at`, `record_version`, `seq_at_time`.
 """
 import re, sys
 from common import *
 
 repo, gen = sys.argv[1], sys.argv[2]
 T = "c17_nexus_order"
+ID = r"[A-Za-z_][A-Za-z0-9_]*"
 
 
-def need_one(body, pat, what):
-    ms = list(re.finditer(pat, body))
+def one(text, pat, what):
+    ms = list(re.finditer(pat, text))
     if len(ms) != 1:
         die(f"{T}: expected exactly one `{what}`, found {len(ms)}")
-    return ms[0].start()
+    return ms[0]
 
 
-# ---------------------------------------------------------------- tx.rs
-tx = strip_rust_comments(read_source(repo, "rs/anda_cognitive_nexus/src/tx.rs"))
-commit = fn_body(tx, "commit")
-
-# dry-run branch: `if self.dry_run { ... }` at the top
-m = re.search(r"if\s+self\s*\.\s*dry_run\s*\{", commit)
-if not m:
-    die(f"{T}: `if self.dry_run {{` not found in Transaction::commit")
-i = commit.index("{", m.start())
-depth, j = 0, i
-while j < len(commit):
-    if commit[j] == "{":
-        depth += 1
-    elif commit[j] == "}":
-        depth -= 1
-        if depth == 0:
-            break
-    j += 1
-dry_block, rest, dry_start = commit[i + 1:j], commit[j + 1:], m.start()
-dry_discards = bool(re.search(r"self\s*\.\s*discard_shells\s*\(\s*\)\s*\.\s*await", dry_block))
-dry_returns = bool(re.search(r"\breturn\s+Ok\s*\(", dry_block))
-dry_writes = bool(re.search(r"self\s*\.\s*write\s*\(|\.\s*journal\s*\(|\.\s*put\s*\(|record_version", dry_block))
-dry_first = not re.search(r"\.\s*await", commit[:dry_start])  # nothing awaited before the branch
-
-def block_after(text, start):
-    """text of the brace block that opens at or after `start`"""
+def block_at(text, start):
+    """(text of the brace block that opens at or after `start`, index of its `{`, index after its `}`)"""
     i = text.index("{", start)
     depth, j = 0, i
     while j < len(text):
@@ -63,162 +46,191 @@ def block_after(text, start):
         elif text[j] == "}":
             depth -= 1
             if depth == 0:
-                return text[i + 1:j]
+                return text[i + 1:j], i, j + 1
         j += 1
     die(f"{T}: unbalanced braces")
 
 
-CHECKS = [
-    ("governance", r"self\s*\.\s*propagate_governance\s*\(\s*\)\s*\.\s*await", "self.propagate_governance().await"),
-    ("refClosure", r"self\s*\.\s*check_reference_closure\s*\(\s*\)\s*\.\s*await", "self.check_reference_closure().await"),
-    ("keyIdentity", r"self\s*\.\s*check_concept_key_identity\s*\(\s*\)\s*\.\s*await", "self.check_concept_key_identity().await"),
-]
-LATER = [
-    ("writeLoop", r"for\s*\(\s*id\s*,\s*staged\s*\)\s*in\s+std\s*::\s*mem\s*::\s*take\s*\(\s*&mut\s+self\s*\.\s*staged\s*\)", "for (id, staged) in std::mem::take(&mut self.staged)"),
-    ("discardUnstaged", r"self\s*\.\s*discard_unstaged_shells\s*\(", "self.discard_unstaged_shells("),
-    ("journal", r"\.\s*journal\s*\(", ".journal("),
-    ("flush", r"self\s*\.\s*store\s*\.\s*flush\s*\(", "self.store.flush("),
-]
-markers = CHECKS + LATER
-# Two shapes are understood: the three checks inline in `commit` (each `?`-propagated: a failing
-# check returns at once, nothing is cleaned up), or gathered in `check_before_commit()` whose
-# failure arm may discard the shells before returning the error.
-call = list(re.finditer(r"self\s*\.\s*check_before_commit\s*\(\s*\)\s*\.\s*await", rest))
-if len(call) > 1:
-    die(f"{T}: check_before_commit is called {len(call)} times in commit")
-if call:
-    cb = fn_body(tx, "check_before_commit")
-    cpos = sorted((need_one(cb, pat, what), name) for name, pat, what in CHECKS)
-    for name, pat, what in CHECKS:
-        if re.search(pat, rest):
-            die(f"{T}: `{what}` appears both in commit and in check_before_commit")
-    m = re.search(r"if\s+let\s+Err\s*\(\s*\w+\s*\)\s*=\s*self\s*\.\s*check_before_commit\s*\(\s*\)\s*\.\s*await\s*\{", rest)
-    check_failure_discards = False
-    if m:
-        arm = block_after(rest, m.start())
-        pd = re.search(r"self\s*\.\s*discard_shells\s*\(\s*\)\s*\.\s*await", arm)
-        pr = re.search(r"\breturn\s+Err\s*\(", arm)
-        if not pr:
-            die(f"{T}: the failure arm of check_before_commit does not return the error")
-        check_failure_discards = bool(pd and pd.start() < pr.start())
-    elif not re.search(r"self\s*\.\s*check_before_commit\s*\(\s*\)\s*\.\s*await\s*\?", rest):
-        die(f"{T}: the result of check_before_commit is neither matched nor propagated")
-    pos = [(call[0].start() + k, name) for k, (_, name) in enumerate(cpos)]
+def called(text, fn):
+    """positions where `fn` (a function of the same file) is called: the `{` of an inlined
+    `{ /*fn*/ … }` block, or a call left in place (`self.fn(` / `Self::fn(` / bare `fn(`)"""
+    return [m.start() for m in re.finditer(r"\{ /\*" + fn + r"\*/|\bself\s*\.\s*" + fn + r"\s*\(|\bSelf\s*::\s*" + fn + r"\s*\(|(?<![\w.:])" + fn + r"\s*\(", text)]
+
+
+def call_end(text, pos):
+    """index just after the call that starts at `pos` (the inlined block, or the argument list)"""
+    if text.startswith("{ /*", pos):
+        return block_at(text, pos)[2]
+    j = text.index("(", pos); depth = 0
+    while j < len(text):
+        if text[j] == "(": depth += 1
+        elif text[j] == ")":
+            depth -= 1
+            if depth == 0: return j + 1
+        j += 1
+    die(f"{T}: unbalanced parentheses")
+
+
+def with_methods(src, text, depth=2):
+    """`text` followed by the (inlined) bodies of the methods of this file that `text` calls on some
+    other receiver (`staged.next_version()`): a rule moved into such a method is still seen"""
+    names = set(all_fn_names(src))
+    out, seen, frontier = text, set(), text
+    for _ in range(depth):
+        nxt = ""
+        for m in re.finditer(r"\.\s*(" + ID + r")\s*\(", frontier):
+            n = m.group(1)
+            if n in names and n not in seen:
+                seen.add(n)
+                nxt += "\n" + inlined_body(src, n)
+        out += nxt
+        frontier = nxt
+    return out
+
+
+VERSION_RULE = (r"if\s+(" + ID + r")\s*\.\s*is_new\s*\{\s*1\s*\}\s*else\s*\{\s*\1\s*\.\s*(?:row\s*\.\s*)?version\s*\(\s*\)\s*\.\s*saturating_add\s*\(\s*1\s*\)\s*\}"
+                r"|if\s*!\s*(" + ID + r")\s*\.\s*is_new\s*\{\s*\2\s*\.\s*(?:row\s*\.\s*)?version\s*\(\s*\)\s*\.\s*saturating_add\s*\(\s*1\s*\)\s*\}\s*else\s*\{\s*1\s*\}")
+
+# ---------------------------------------------------------------- tx.rs
+tx = cut_tests(strip_rust_comments(read_source(repo, "rs/anda_cognitive_nexus/src/tx.rs")))
+commit = inlined_body(tx, "commit")
+
+# ---- the dry-run branch
+m = re.search(r"if\s+self\s*\.\s*dry_run\s*\{", commit)
+mi = re.search(r"if\s*!\s*self\s*\.\s*dry_run\s*\{", commit)
+if m:
+    dry_block, _, dry_end = block_at(commit, m.start())
+    rest = commit[dry_end:]
+elif mi:
+    # inverted spelling: `if !self.dry_run { <commit> } else { <preview> }`
+    m = mi
+    live, _, live_end = block_at(commit, mi.start())
+    if not re.match(r"\s*else\s*\{", commit[live_end:]):
+        die(f"{T}: `if !self.dry_run {{ … }}` has no else branch")
+    dry_block, _, dry_end = block_at(commit, live_end)
+    rest = live + commit[dry_end:]
+    if re.search(r"\.\s*await", commit[dry_end:]) and not re.search(r"\breturn\b", dry_block):
+        die(f"{T}: the dry-run branch falls through into code that awaits")
+    if not re.search(r"\breturn\b", dry_block):
+        dry_block += " return"   # the branch is the tail of the function: nothing follows it
+else:
+    die(f"{T}: `if self.dry_run {{` not found in Transaction::commit")
+dry_first = not re.search(r"\.\s*await", commit[:m.start()])
+dry_discards = bool(called(dry_block, "discard_shells"))
+dry_returns = bool(re.search(r"\breturn\b", dry_block))
+dry_writes = bool(called(dry_block, "write") or re.search(r"\.\s*journal\s*\(|\.\s*put\s*\(|record_version\s*\(|remove_versions\s*\(", dry_block))
+
+# ---- the write loop: whatever iterates `mem::take(&mut self.staged)`
+tk = one(rest, r"mem\s*::\s*take\s*\(\s*&mut\s+self\s*\.\s*staged\s*\)", "mem::take(&mut self.staged)")
+loop_body, loop_open, loop_end = block_at(rest, tk.end())
+loop_start = tk.start()
+w_in = called(loop_body, "write")
+if len(w_in) != 1:
+    die(f"{T}: expected exactly one call of self.write inside the commit loop, found {len(w_in)}")
+if called(rest[:loop_start], "write") or called(rest[loop_end:], "write"):
+    die(f"{T}: self.write is called outside the commit loop")
+# unchanged rows are skipped: a test of `.changed` guards the write (before it in the loop, or a filter on the iterator)
+skips_unchanged = bool(re.search(r"\.\s*changed\b", loop_body[:w_in[0]] + rest[tk.end():loop_open]))
+version_rule = bool(re.search(VERSION_RULE, with_methods(tx, loop_body[:w_in[0]])))
+# the write's error is propagated: `.await?` right after the call
+write_propagates = bool(re.match(r"\s*\.\s*await\s*\?", loop_body[call_end(loop_body, w_in[0]):]))
+
+cr = inlined_body(tx, "change_records")
+cr_rule = bool(re.search(VERSION_RULE, with_methods(tx, cr)))
+cr_filter = bool(re.search(r"\.\s*changed\b", cr))
+
+# ---- the pre-commit checks, the later steps, the destruction of purged versions
+CHECKS = [("governance", "propagate_governance"), ("refClosure", "check_reference_closure"), ("keyIdentity", "check_concept_key_identity")]
+pos = []
+for name, fn in CHECKS:
+    ps = called(rest, fn)
+    if len(ps) != 1:
+        die(f"{T}: expected exactly one call of {fn} in commit, found {len(ps)}")
+    pos.append((ps[0], name))
+last_check = max(p for p, _ in pos)
+LATER = [("discardUnstaged", None, "discard_unstaged_shells"), ("journal", r"\.\s*journal\s*\(", ".journal("), ("flush", r"self\s*\.\s*store\s*\.\s*flush\s*\(", "self.store.flush(")]
+pos.append((loop_start, "writeLoop"))
+for name, pat, what in LATER:
+    ps = called(rest, what) if pat is None else [x.start() for x in re.finditer(pat, rest)]
+    if len(ps) != 1:
+        die(f"{T}: expected exactly one `{what}` in commit, found {len(ps)}")
+    pos.append((ps[0], name))
+
+# a failing check: is `discard_shells` called, before the error is returned, between the checks and the loop?
+if last_check < loop_start:
+    seg = rest[last_check:loop_start]
+    d = called(seg, "discard_shells")
+    r = [x.start() for x in re.finditer(r"\breturn\s+Err\s*\(", seg)]
+    check_failure_discards = any(x < y for x in d for y in r)
 else:
     check_failure_discards = False
-    pos = [(need_one(rest, pat, what), name) for name, pat, what in CHECKS]
-pos += [(need_one(rest, pat, what), name) for name, pat, what in LATER]
 
-# where the version rows of staged purges are destroyed: inside the write loop (right before the
-# row's own write), or as a step of its own somewhere else in `commit`
-RV = r"\.\s*remove_versions\s*\("
-lm0 = re.search(LATER[0][1], rest)
-loop0 = block_after(rest, lm0.end())
-loop_start = rest.index("{", lm0.end())
-loop_end = loop_start + len(loop0) + 1
-rv_all = [m.start() for m in re.finditer(RV, rest)]
-rv_in = [p for p in rv_all if loop_start < p < loop_end]
-rv_out = [p for p in rv_all if not (loop_start < p < loop_end)]
-if len(rv_in) > 1 or len(rv_out) > 1 or not rv_all:
+RV = r"remove_versions\s*\("
+rv_all = [x.start() for x in re.finditer(RV, rest)]
+rv_in = [p for p in rv_all if loop_open < p < loop_end]
+rv_out = [p for p in rv_all if not (loop_open < p < loop_end)]
+if len(rv_in) > 1 or len(rv_out) > 1 or not rv_all or (rv_in and rv_out):
     die(f"{T}: remove_versions is called {len(rv_in)} time(s) inside and {len(rv_out)} time(s) outside the commit write loop")
 purge_in_loop = bool(rv_in)
 if rv_in:
-    # it must come before the row's own write, guarded by the staged purge of that id
-    wpos = re.search(r"self\s*\.\s*write\s*\(", loop0)
-    rpos = re.search(RV, loop0)
-    if not (wpos and rpos and rpos.start() < wpos.start()):
-        die(f"{T}: remove_versions does not precede self.write( inside the commit loop")
-    if not re.search(r"self\s*\.\s*purges\s*\.\s*get\s*\(\s*&id\s*\)", loop0):
+    rel = rv_in[0] - loop_open - 1
+    if not rel < w_in[0]:
+        die(f"{T}: remove_versions does not precede self.write inside the commit loop")
+    if not re.search(r"self\s*\.\s*purges\s*\.\s*get\s*\(\s*&\s*" + ID + r"\s*\)", loop_body[:w_in[0]]):
         die(f"{T}: the in-loop remove_versions is not guarded by self.purges.get(&id)")
 if rv_out:
-    # a purge destroyed in the loop *and* elsewhere would be two erasures; one outside becomes a step
-    if rv_in:
-        die(f"{T}: remove_versions both inside and outside the commit write loop")
-    p0 = rv_out[0]
-    pos.append((p0, "eraseVersions"))
+    pos.append((rv_out[0], "eraseVersions"))
 order = [name for _, name in sorted(pos)]
 
-# the write loop body
-lm = re.search(LATER[0][1], rest)
-li = rest.index("{", lm.end())
-depth, j = 0, li
-while j < len(rest):
-    if rest[j] == "{":
-        depth += 1
-    elif rest[j] == "}":
-        depth -= 1
-        if depth == 0:
-            break
-    j += 1
-loop = rest[li + 1:j]
-skips_unchanged = bool(re.search(r"if\s*!\s*staged\s*\.\s*changed\s*\{\s*continue\s*;\s*\}", loop))
-version_rule = bool(re.search(
-    r"let\s+version\s*=\s*if\s+staged\s*\.\s*is_new\s*\{\s*1\s*\}\s*else\s*\{\s*staged\s*\.\s*row\s*\.\s*version\s*\(\s*\)\s*\.\s*saturating_add\s*\(\s*1\s*\)\s*\}", loop))
-writes_in_loop = len(re.findall(r"self\s*\.\s*write\s*\(", loop))
-write_propagates = bool(re.search(r"self\s*\.\s*write\s*\([^;]*\)\s*\.\s*await\s*\?", loop, re.S))
-if writes_in_loop != 1:
-    die(f"{T}: expected exactly one self.write( in the commit loop, found {writes_in_loop}")
-# same rule in change_records (what a dry run reports)
-cr = fn_body(tx, "change_records")
-cr_rule = bool(re.search(r"if\s+staged\s*\.\s*is_new\s*\{\s*1\s*\}\s*else\s*\{\s*staged\s*\.\s*row\s*\.\s*version\s*\(\s*\)\s*\.\s*saturating_add\s*\(\s*1\s*\)\s*\}", cr))
-cr_filter = bool(re.search(r"filter\s*\(\s*\|\s*\(\s*_\s*,\s*staged\s*\)\s*\|\s*staged\s*\.\s*changed\s*\)", cr))
+status_rule = bool(re.search(
+    r"if\s+(?:" + ID + r"\s*==\s*0|" + ID + r"\s*\.\s*is_empty\s*\(\s*\))\s*\{\s*ReceiptStatus\s*::\s*NoEffect\s*\}\s*else\s*\{\s*ReceiptStatus\s*::\s*Committed\s*\}"
+    r"|if\s+(?:" + ID + r"\s*(?:!=|>)\s*0|!\s*" + ID + r"\s*\.\s*is_empty\s*\(\s*\))\s*\{\s*ReceiptStatus\s*::\s*Committed\s*\}\s*else\s*\{\s*ReceiptStatus\s*::\s*NoEffect\s*\}", rest))
 
-# status rule
-status_rule = bool(re.search(r"if\s+written\s*==\s*0\s*\{\s*ReceiptStatus\s*::\s*NoEffect\s*\}\s*else\s*\{\s*ReceiptStatus\s*::\s*Committed\s*\}", rest))
-
-# write(): put then record_version; pending/empty -> active; version/seq stamped from arguments
-wr = fn_body(tx, "write")
-p_put = need_one(wr, r"self\s*\.\s*store\s*\.\s*put\s*\(", "self.store.put(")
-p_rec = need_one(wr, r"\.\s*record_version\s*\(", ".record_version(")
+# ---- write(): put then record_version; pending/empty -> active; version/seq stamped from arguments
+wr = inlined_body(tx, "write")
+p_put = one(wr, r"\.\s*put\s*\(", ".put(").start()
+p_rec = one(wr, r"\.\s*record_version\s*\(", ".record_version(").start()
 put_first = p_put < p_rec
-promotes = bool(re.search(r"if\s+row\s*\.\s*state\s*\.\s*is_empty\s*\(\s*\)\s*\|\|\s*row\s*\.\s*state\s*==\s*state\s*::\s*PENDING\s*\{\s*row\s*\.\s*state\s*=\s*state\s*::\s*ACTIVE", wr))
-stamps = bool(re.search(r"row\s*\.\s*version\s*=\s*version\s*;", wr)) and bool(re.search(r"row\s*\.\s*seq\s*=\s*self\s*\.\s*cx\s*\.\s*seq\s*;", wr))
+promotes = bool(re.search(r"\.\s*state\s*\.\s*is_empty\s*\(\s*\)\s*\|\|\s*" + ID + r"\s*\.\s*state\s*==\s*state\s*::\s*PENDING\s*\{\s*" + ID + r"\s*\.\s*state\s*=\s*state\s*::\s*ACTIVE", wr))
+stamps = bool(re.search(r"\.\s*version\s*=\s*version\s*;", wr)) and bool(re.search(r"\.\s*seq\s*=\s*self\s*\.\s*cx\s*\.\s*seq\s*;", wr))
 
-abort_body = fn_body(tx, "abort")
-abort_discards = bool(re.search(r"self\s*\.\s*discard_shells\s*\(\s*\)\s*\.\s*await", abort_body))
-
-ins = fn_body(tx, "insert_shell")
-shell_pending = bool(re.search(r"state\s*=\s*state\s*::\s*PENDING", ins))
-
-# mark_changed: sets changed, keeps op of a new row
-mc = fn_body(tx, "mark_changed")
-mark_ok = bool(re.search(r"staged\s*\.\s*changed\s*=\s*true", mc)) and bool(re.search(r"if\s*!\s*staged\s*\.\s*is_new\s*\{\s*staged\s*\.\s*op\s*=\s*op", mc))
+abort_discards = bool(called(inlined_body(tx, "abort"), "discard_shells"))
+shell_pending = bool(re.search(r"state\s*=\s*state\s*::\s*PENDING", inlined_body(tx, "insert_shell")))
+mc = inlined_body(tx, "mark_changed")
+mark_ok = bool(re.search(r"\.\s*changed\s*=\s*true", mc)) and bool(re.search(r"if\s*!\s*" + ID + r"\s*\.\s*is_new\s*\{\s*" + ID + r"\s*\.\s*op\s*=\s*op", mc))
 
 # ---------------------------------------------------------------- kml/mod.rs
-kml = strip_rust_comments(read_source(repo, "rs/anda_cognitive_nexus/src/kml/mod.rs"))
+kml = cut_tests(strip_rust_comments(read_source(repo, "rs/anda_cognitive_nexus/src/kml/mod.rs")))
 ex = fn_body(kml, "execute")
-p_begin = need_one(ex, r"Transaction\s*::\s*begin\s*\(", "Transaction::begin(")
-p_plan = need_one(ex, r"\bplan\s*\(", "plan(")
-p_commit = need_one(ex, r"tx\s*\.\s*commit\s*\(", "tx.commit(")
+p_begin = one(ex, r"Transaction\s*::\s*begin\s*\(", "Transaction::begin(").start()
+p_plan = one(ex, r"(?<![\w.])plan\s*\(", "plan(").start()
+p_commit = one(ex, r"\.\s*commit\s*\(", ".commit(").start()
 exec_order_ok = p_begin < p_plan < p_commit
-seg = ex[p_plan:p_commit]
-m = re.search(r"Err\s*\(\s*\w+\s*\)\s*=>\s*\{", seg)
-abort_on_plan_error = False
-if m:
-    k = seg.index("{", m.start())
-    depth, j = 0, k
-    while j < len(seg):
-        if seg[j] == "{":
-            depth += 1
-        elif seg[j] == "}":
-            depth -= 1
-            if depth == 0:
-                break
+# a planning error: `.abort().await` and then the return, in the arm that holds the `Err(…)` of `plan(…)`
+# (whatever the spelling: `match`, `if let Err(e) = plan(…)`, arms in either order)
+seg = ex[p_plan:]
+pa = re.search(r"\.\s*abort\s*\(\s*\)\s*\.\s*await", seg)
+pr = None
+if pa:
+    # the rest of the arm the abort stands in (up to the `}` that closes it): it leaves with the error
+    j, depth = pa.end(), 0
+    while j < len(seg) and depth >= 0:
+        depth += {"{": 1, "}": -1}.get(seg[j], 0)
         j += 1
-    arm = seg[k + 1:j]
-    pa = re.search(r"tx\s*\.\s*abort\s*\(\s*\)\s*\.\s*await", arm)
-    pr = re.search(r"\breturn\b", arm)
-    abort_on_plan_error = bool(pa and pr and pa.start() < pr.start())
+    pr = re.search(r"\breturn\b|\bErr\s*\(", seg[pa.end():j])
+stmt_start = max(ex.rfind(";", 0, p_plan), 0)
+abort_on_plan_error = bool(pa and pr and re.search(r"\bErr\s*\(", ex[stmt_start:p_plan] + seg[:pa.start()]))
 
-pl = fn_body(kml, "plan")
-p_decl = need_one(pl, r"clauses\s*::\s*declare_handles\s*\(", "clauses::declare_handles(")
-p_apply = need_one(pl, r"clauses\s*::\s*apply\s*\(", "clauses::apply(")
-p_pass = need_one(pl, r"for\s+pass\s+in\s+0\s*\.\.\s*clauses\s*::\s*PLAN_PASSES", "for pass in 0..clauses::PLAN_PASSES")
+pl = inlined_body(kml, "plan")
+p_decl = one(pl, r"clauses\s*::\s*declare_handles\s*\(", "clauses::declare_handles(").start()
+p_apply = one(pl, r"clauses\s*::\s*apply\s*\(", "clauses::apply(").start()
+p_pass = one(pl, r"0\s*\.\.\s*clauses\s*::\s*PLAN_PASSES", "0..clauses::PLAN_PASSES").start()
 declare_first = p_decl < p_pass < p_apply
-pass_filter = bool(re.search(r"if\s+clauses\s*::\s*plan_pass\s*\(\s*clause\s*\)\s*!=\s*pass\s*\{\s*continue\s*;", pl))
+pf = re.search(r"clauses\s*::\s*plan_pass\s*\(\s*" + ID + r"\s*\)\s*(!=|==)\s*" + ID, pl)
+pass_filter = bool(pf) and p_pass < pf.start() < p_apply and (pf.group(1) == "==" or bool(re.search(r"\bcontinue\b", pl[pf.end():p_apply])))
 
 # ---------------------------------------------------------------- kml/clauses.rs
-cl = strip_rust_comments(read_source(repo, "rs/anda_cognitive_nexus/src/kml/clauses.rs"))
+cl = cut_tests(strip_rust_comments(read_source(repo, "rs/anda_cognitive_nexus/src/kml/clauses.rs")))
 passes = int_const(cl, "PLAN_PASSES")
 pp = fn_body(cl, "plan_pass")
 table = {}
@@ -231,95 +243,69 @@ for arm in re.finditer(r"((?:MutationClause\s*::\s*\w+\s*\(\s*_\s*\)\s*\|?\s*)+|
 for k in ("CreateConcept", "UpsertConcept", "EnsureProposition", "_"):
     if k not in table:
         die(f"{T}: plan_pass has no arm for {k}")
-dh = fn_body(cl, "declare_handles")
-declared = sorted(set(re.findall(r"MutationClause\s*::\s*(\w+)\s*\(\s*c\s*\)\s*=>\s*\(\s*Some", dh)))
+dh = inlined_body(cl, "declare_handles")
+declared = sorted(set(re.findall(r"MutationClause\s*::\s*(\w+)\s*\(\s*" + ID + r"\s*\)\s*=>\s*\(\s*Some", dh)))
 
-# ENSURE PROPOSITION resolves through the store, then through the rows this transaction staged for
-# creation, and only then mints
 en = fn_body(cl, "ensure_proposition")
-p_find = need_one(en, r"store\s*\.\s*find_proposition\s*\(", "store.find_proposition(")
-p_mint = need_one(en, r"tx\s*\.\s*mint\s*\(", "tx.mint(")
-stg = list(re.finditer(r"tx\s*\.\s*staged_new_proposition\s*\(", en))
+p_find = one(en, r"\.\s*find_proposition\s*\(", ".find_proposition(").start()
+p_mint = one(en, r"\.\s*mint\s*\(", ".mint(").start()
+stg = [x.start() for x in re.finditer(r"\.\s*staged_new_proposition\s*\(", en)]
 if len(stg) > 1:
     die(f"{T}: ensure_proposition consults staged_new_proposition {len(stg)} times")
+if not p_find < p_mint:
+    die(f"{T}: ensure_proposition mints before it looks the tuple up")
 ensure_consults_staged = False
 if stg:
-    if not (p_find < stg[0].start() < p_mint):
+    if not (p_find < stg[0] < p_mint):
         die(f"{T}: ensure_proposition must look in the store, then at the staged rows, then mint")
-    arm = block_after(en, stg[0].start())
-    snp = fn_body(tx, "staged_new_proposition")
-    rule = bool(re.search(r"Element\s*::\s*Proposition\s*\(\s*row\s*\)\s*if\s+staged\s*\.\s*is_new\s*&&\s*row\s*\.\s*tuple_key\s*==\s*tuple_key", snp))
-    ensure_consults_staged = bool(re.search(r"\breturn\s+Ok\s*\(\s*\(\s*\)\s*\)", arm)) and not re.search(r"stage_new|tx\s*\.\s*mint", arm) and rule
-if not (p_find < p_mint):
-    die(f"{T}: ensure_proposition mints before it looks the tuple up")
+    between = en[stg[0]:p_mint]
+    snp = inlined_body(tx, "staged_new_proposition")
+    rule = bool(re.search(r"Element\s*::\s*Proposition\s*\(\s*(" + ID + r")\s*\)\s*if\s+" + ID + r"\s*\.\s*is_new\s*&&\s*\1\s*\.\s*tuple_key\s*==\s*" + ID, snp)) \
+        or bool(re.search(r"\.\s*is_new\b", snp) and re.search(r"\.\s*tuple_key\s*==", snp) and re.search(r"Element\s*::\s*Proposition", snp))
+    ensure_consults_staged = bool(re.search(r"\breturn\s+Ok\s*\(\s*\(\s*\)\s*\)", between)) and not re.search(r"stage_new\s*\(", between) and rule
 
 # ---------------------------------------------------------------- nexus.rs
-nx = strip_rust_comments(read_source(repo, "rs/anda_cognitive_nexus/src/nexus.rs"))
-# the Session impl of Executor::execute is the first `fn execute`
-sx = fn_body(nx, "execute", 0)
-locks = {}
+nx = cut_tests(strip_rust_comments(read_source(repo, "rs/anda_cognitive_nexus/src/nexus.rs")))
+sx = inlined_body(nx, "execute")   # the first `fn execute`: `impl Executor for Session`
 arms = [(m.start(), m.group(1)) for m in re.finditer(r"Command\s*::\s*(Kml|Kql|Meta)\s*\(", sx)]
 if sorted(a for _, a in arms) != ["Kml", "Kql", "Meta"]:
     die(f"{T}: expected exactly the arms Command::Kml/Kql/Meta in Session::execute, found {[a for _, a in arms]}")
 arms.sort()
+locks = {}
 for n, (p, name) in enumerate(arms):
     end = arms[n + 1][0] if n + 1 < len(arms) else len(sx)
     seg = sx[p:end]
-    lk = re.findall(r"self\s*\.\s*nexus\s*\.\s*lock\s*\.\s*(read|write)\s*\(\s*\)\s*\.\s*await", seg)
+    lk = list(re.finditer(r"\.\s*lock\s*\.\s*(read|write)\s*\(\s*\)\s*\.\s*await", seg))
     if len(lk) != 1:
         die(f"{T}: arm Command::{name} takes the nexus lock {len(lk)} times (expected once)")
-    # the guard must be bound to a named variable (`let _guard = …`), not dropped at once (`let _ = …`)
-    held = bool(re.search(r"let\s+_\w+\s*=\s*self\s*\.\s*nexus\s*\.\s*lock\s*\.", seg))
+    # the guard is bound to a named variable (`let _guard = …`), not dropped at once (`let _ = …`)
+    held = bool(re.search(r"let\s+_\w+\s*=\s*[\w\s.]*\.\s*lock\s*\.\s*(?:read|write)", seg))
     first_exec = re.search(r"crate\s*::\s*(kml|kql|meta)\s*::\s*execute\s*\(", seg)
-    lock_pos = re.search(r"self\s*\.\s*nexus\s*\.\s*lock\s*\.", seg).start()
-    before = bool(first_exec and lock_pos < first_exec.start())
-    locks[name] = (lk[0], held and before)
+    before = bool(first_exec and lk[0].start() < first_exec.start())
+    locks[name] = (lk[0].group(1), held and before)
 
 # ---------------------------------------------------------------- store/space.rs
-sp = strip_rust_comments(read_source(repo, "rs/anda_cognitive_nexus/src/store/space.rs"))
-bt = fn_body(sp, "begin_transaction")
-seq_next = bool(re.search(r"let\s+seq\s*=\s*space\s*\.\s*seq\s*\.\s*saturating_add\s*\(\s*1\s*\)\s*;", bt))
-p_upd = re.search(r"\.\s*update\s*\(\s*space\s*\.\s*_id\s*,\s*fields\s*\)", bt)
-p_ok = re.search(r"Ok\s*\(\s*WriteContext", bt)
+sp = cut_tests(strip_rust_comments(read_source(repo, "rs/anda_cognitive_nexus/src/store/space.rs")))
+bt = inlined_body(sp, "begin_transaction")
+seq_next = bool(re.search(r"\.\s*seq\s*\.\s*saturating_add\s*\(\s*1\s*\)", bt))
+p_upd = re.search(r"\.\s*update\s*\(", bt)
+p_ok = re.search(r"WriteContext\s*\{", bt)
 seq_durable_first = bool(p_upd and p_ok and p_upd.start() < p_ok.start())
-jr = fn_body(sp, "journal")
-journal_seq = bool(re.search(r"seq\s*:\s*cx\s*\.\s*seq\s*,", jr)) and bool(re.search(r"tx_id\s*:\s*cx\s*\.\s*tx_id", jr))
+jr = inlined_body(sp, "journal")
+journal_seq = bool(re.search(r"\bseq\s*:\s*" + ID + r"\s*\.\s*seq\s*,", jr)) and bool(re.search(r"\btx_id\s*:\s*" + ID + r"\s*\.\s*tx_id", jr))
 
 # ---------------------------------------------------------------- store/history.rs
-hs = strip_rust_comments(read_source(repo, "rs/anda_cognitive_nexus/src/store/history.rs"))
-ea = fn_body(hs, "element_at")
-ea_le = bool(re.search(r"RangeQuery\s*::\s*Le\s*\(\s*Fv\s*::\s*U64\s*\(\s*seq\s*\)\s*\)", ea))
-ea_max = bool(re.search(r"\(\s*row\s*\.\s*seq\s*,\s*row\s*\.\s*version\s*\)\s*>\s*\(\s*current\s*\.\s*seq\s*,\s*current\s*\.\s*version\s*\)", ea))
-es = fn_body(hs, "elements_at")
-es_le = bool(re.search(r"RangeQuery\s*::\s*Le\s*\(\s*Fv\s*::\s*U64\s*\(\s*seq\s*\)\s*\)", es))
-es_max = bool(re.search(r"\(\s*current\s*\.\s*seq\s*,\s*current\s*\.\s*version\s*\)\s*>=\s*\(\s*row\s*\.\s*seq\s*,\s*row\s*\.\s*version\s*\)", es))
-rv = fn_body(hs, "record_version")
-rv_seq = bool(re.search(r"seq\s*:\s*cx\s*\.\s*seq\s*,", rv)) and bool(re.search(r"\.\s*add_from\s*\(", rv))
-st = fn_body(hs, "seq_at_time")
-st_rule = bool(re.search(r"row\s*\.\s*committed_at\s*\.\s*as_str\s*\(\s*\)\s*<=\s*at\s*&&\s*row\s*\.\s*seq\s*>\s*seq", st))
-
-
-FACTS = """theorem gen_commit_order :
-    commitOrder = [.governance, .refClosure, .keyIdentity, .writeLoop, .discardUnstaged, .journal, .flush] := by decide
-theorem gen_purge_in_loop : purgeErasureInLoop = true := by decide
-theorem gen_dry_run : (dryRunFirst && dryRunDiscardsShells && dryRunReturns && !dryRunWrites) = true := by decide
-theorem gen_write_loop :
-    (loopSkipsUnchanged && versionRuleOncePerElement && loopWritePropagatesError && statusRule &&
-     writePutsBeforeVersionLog && writePromotesPending && writeStampsVersionAndSeq && markChangedRule) = true := by decide
-theorem gen_abort : (executeOrder && abortOnPlanError && abortDiscardsShells && shellIsPending) = true := by decide
-theorem gen_check_failure_discards : checkFailureDiscardsShells = true := by decide
-theorem gen_ensure_consults_staged : ensureConsultsStaged = true := by decide
-theorem gen_plan :
-    (declareBeforeApply && passFilter) = true ∧ planPasses = 3 ∧ passCreateConcept = 0 ∧ passUpsertConcept = 1 ∧
-    passEnsureProposition = 1 ∧ passOther = 2 ∧
-    passExplicit = ["CreateConcept", "EnsureProposition", "UpsertConcept"] ∧
-    declaredInPhase1 = ["CreateActivity", "CreateAssertion", "CreateConcept", "CreateEvidence"] := by decide
-theorem gen_locks :
-    lockKml = .exclusive ∧ lockKql = .shared ∧ lockMeta = .shared ∧
-    (lockHeldAcrossKml && lockHeldAcrossKql && lockHeldAcrossMeta) = true := by decide
-theorem gen_seq : (seqIsNext && seqDurableBeforeUse && journalCarriesCxSeq && versionRowCarriesCxSeq) = true := by decide
-theorem gen_history : (historyReadsAtOrBefore && historyTakesGreatest && seqAtTimeRule) = true := by decide
-"""
+hs = cut_tests(strip_rust_comments(read_source(repo, "rs/anda_cognitive_nexus/src/store/history.rs")))
+LE = r"RangeQuery\s*::\s*Le\s*\(\s*Fv\s*::\s*U64\s*\(\s*" + ID + r"\s*\)\s*\)"
+CMP = r"\(\s*(" + ID + r")\s*\.\s*seq\s*,\s*\1\s*\.\s*version\s*\)\s*(?:>=|>|<=|<)\s*\(\s*(" + ID + r")\s*\.\s*seq\s*,\s*\2\s*\.\s*version\s*\)"
+ea = inlined_body(hs, "element_at")
+es = inlined_body(hs, "elements_at")
+ea_le, es_le = bool(re.search(LE, ea)), bool(re.search(LE, es))
+ea_max, es_max = bool(re.search(CMP, ea)), bool(re.search(CMP, es))
+rv = inlined_body(hs, "record_version")
+rv_seq = bool(re.search(r"\bseq\s*:\s*" + ID + r"\s*\.\s*seq\s*,", rv)) and bool(re.search(r"\.\s*add_from\s*\(", rv))
+st = inlined_body(hs, "seq_at_time")
+st_rule = bool(re.search(r"\.\s*committed_at\s*(?:\.\s*as_str\s*\(\s*\))?\s*<=\s*" + ID + r"\s*&&\s*" + ID + r"\s*\.\s*seq\s*>\s*" + ID, st))
 
 
 def b(x):
@@ -423,10 +409,32 @@ end AndaVerif.Gen.NexusOrder
 """
 write_gen(gen, "NexusOrder.lean", text)
 
+FACTS = """theorem gen_commit_order :
+    commitOrder = [.governance, .refClosure, .keyIdentity, .writeLoop, .discardUnstaged, .journal, .flush] := by decide
+theorem gen_purge_in_loop : purgeErasureInLoop = true := by decide
+theorem gen_dry_run : (dryRunFirst && dryRunDiscardsShells && dryRunReturns && !dryRunWrites) = true := by decide
+theorem gen_write_loop :
+    (loopSkipsUnchanged && versionRuleOncePerElement && loopWritePropagatesError && statusRule &&
+     writePutsBeforeVersionLog && writePromotesPending && writeStampsVersionAndSeq && markChangedRule) = true := by decide
+theorem gen_abort : (executeOrder && abortOnPlanError && abortDiscardsShells && shellIsPending) = true := by decide
+theorem gen_check_failure_discards : checkFailureDiscardsShells = true := by decide
+theorem gen_ensure_consults_staged : ensureConsultsStaged = true := by decide
+theorem gen_plan :
+    (declareBeforeApply && passFilter) = true ∧ planPasses = 3 ∧ passCreateConcept = 0 ∧ passUpsertConcept = 1 ∧
+    passEnsureProposition = 1 ∧ passOther = 2 ∧
+    passExplicit = ["CreateConcept", "EnsureProposition", "UpsertConcept"] ∧
+    declaredInPhase1 = ["CreateActivity", "CreateAssertion", "CreateConcept", "CreateEvidence"] := by decide
+theorem gen_locks :
+    lockKml = .exclusive ∧ lockKql = .shared ∧ lockMeta = .shared ∧
+    (lockHeldAcrossKml && lockHeldAcrossKql && lockHeldAcrossMeta) = true := by decide
+theorem gen_seq : (seqIsNext && seqDurableBeforeUse && journalCarriesCxSeq && versionRowCarriesCxSeq) = true := by decide
+theorem gen_history : (historyReadsAtOrBefore && historyTakesGreatest && seqAtTimeRule) = true := by decide
+"""
+
 # the kernel-checked facts live in their own module: when an edit breaks one of them the data module
 # (and with it the model and its driver) still builds, so the model runs the *edited* program and
 # the harness can look for the input on which the property now fails
-facts = f"""/- GENERATED by bin/translate/c17_nexus_order.py — facts about Gen/NexusOrder.lean that the proofs of
+facts = """/- GENERATED by bin/translate/c17_nexus_order.py — facts about Gen/NexusOrder.lean that the proofs of
 C17 / C18 start from — do not edit. -/
 import AndaVerif.Gen.NexusOrder
 namespace AndaVerif.Gen.NexusOrder
